@@ -248,27 +248,32 @@ def rule_skip_only_null_sp(ctx):
         inner = dict(ev[3]).get("0")
         if inner[0] == "agg" and inner[2] == "DetachSkippedThread":
             n += 1
-            # condition relative to the end of the wait loop: skip_thread local is phi{ rsp==0 | true(getregs failed) }
-            dnf = conditions(b, eb, origin=o, relevant=lambda a: True)
-            # find the literal on the skip flag
-            flags = set()
-            for c in dnf or []:
-                for (a, v) in c:
-                    if a[0] == "phi":
-                        flags.add((a, v))
-            good = False
-            for (a, v) in flags:
-                alts = list(a[1])
-                eqs = [x for x in alts if x[0] == "bin" and x[1] == "Eq"]
-                trues = [x for x in alts if is_const(x) and x[1] == 1]
-                if len(alts) == 2 and len(eqs) == 1 and len(trues) == 1 and v == 1:
-                    e = eqs[0]
-                    regs = [core(e[2]), core(e[3])]
-                    r = [x for x in regs if x[0] == "field" and x[2] == "rsp" and any(s[0] == "call" and s[1].endswith("getregs") for s in walk(x))]
-                    z = [x for x in regs if is_const(x) and x[1] == 0]
-                    good = len(r) == 1 and len(z) == 1
+            # path condition (materialised bool `skip_thread` is tracked path-sensitively by the guard engine)
+            def rel(a):
+                if a[0] == "discr" and any(s[0] == "call" and s[1].endswith("getregs") for s in walk(a)):
+                    return True
+                if a[0] == "bin" and a[1] in ("Eq", "Ne") and any(s[0] == "field" and s[2] == "rsp" for s in walk(a)):
+                    return True
+                return False
+            dnf = conditions(b, eb, origin=o, relevant=rel)
+            good = dnf is not None and len(dnf) == 2
+            if good:
+                forms = set()
+                for c in dnf:
+                    lits = {}
+                    for (a, v) in c:
+                        if a[0] == "discr":
+                            lits["regs"] = v
+                        else:
+                            z = [x for x in (core(a[2]), core(a[3])) if is_const(x) and x[1] == 0]
+                            lits["rsp0"] = (a[1], v, bool(z))
+                    if lits.get("regs") == 0 and lits.get("rsp0") == ("Eq", 1, True):
+                        forms.add("rsp==0")
+                    elif lits.get("regs") not in (0, None) and "rsp0" not in lits:
+                        forms.add("getregs-failed")
+                good = forms == {"rsp==0", "getregs-failed"}
             ctx.check(good, R, "skip-predicate", b.where(eb, si), "an attached thread is skipped exactly when getregs failed or its rsp == 0",
-                      "skip predicate is not `getregs failed or rsp == 0`: %s" % [show(a)[:120] for a, v in flags])
+                      "skip predicate is not `getregs failed or rsp == 0`: %s" % [[(show(a)[:80], v) for a, v in c] for c in (dnf or [])])
     ctx.floor(R, "DetachSkippedThread exits", n, 1)
 
 
